@@ -56,6 +56,9 @@ OVERRIDES = {
 
 def plan_for(prop, tier):
     cfgs = [dict(c) for c in OVERRIDES.get(prop, {}).get('configs', DEFAULT_CONFIGS)]
+    # selftest only (mutation campaign): VERIF_SKIP_MODES=full leaves a build out to save compile time
+    skip = set(filter(None, os.environ.get('VERIF_SKIP_MODES', '').split(',')))
+    if skip: cfgs = [c for c in cfgs if c['mode'] not in skip]
     budget = float(os.environ.get('VERIF_BUDGET_S', '0')) or (40 if tier == 'quick' else 540)
     p = {
         'configs': cfgs,
